@@ -1,2 +1,66 @@
-(* Props/C02.v — placeholder while the proofs are being written *)
-From Ford Require Import Base.Str Lex.Quote Lex.Reader Lex.ReaderSpec.
+(* Props/C02.v — property C02: statement extraction depends only on Fortran's lexical rules.
+   Statements only; proofs in Lex/QuoteProofs.v and Lex/ReaderProofs.v. *)
+From Ford Require Import Base.Str Lex.Quote Lex.Reader Lex.ReaderSpec Lex.QuoteProofs Lex.ReaderProofs.
+
+(* Characters inside literals are never syntax: the literal-state scanner, the comment scanner
+   and the ';' splitter, against the token-level specification (all token lists, all bodies). *)
+Theorem C02_unterminated_tokens : forall ps,
+  Forall wf_piece ps -> unterminated (render_pieces ps) = false.
+Proof. exact unterminated_tokens. Qed.
+Print Assumptions C02_unterminated_tokens.
+
+Theorem C02_unterminated_open_literal : forall ps q body,
+  Forall wf_piece ps -> is_quote q = true ->
+  unterminated (render_pieces ps ++ q :: escape_body q body) = true.
+Proof. exact unterminated_open_literal. Qed.
+Print Assumptions C02_unterminated_open_literal.
+
+Theorem C02_comment_found : forall ps rest,
+  Forall wf_piece ps ->
+  first_bang (render_pieces ps ++ bang :: rest) = Some (length (render_pieces ps)).
+Proof. exact comment_found. Qed.
+Print Assumptions C02_comment_found.
+
+Theorem C02_no_comment_in_literal : forall ps,
+  Forall wf_piece ps -> first_bang (render_pieces ps) = None.
+Proof. exact no_comment_in_literal. Qed.
+Print Assumptions C02_no_comment_in_literal.
+
+Theorem C02_semicolon_split : forall ps,
+  wf_seq ps -> quote_split semi (render_pieces ps) = map render_pieces (split_semi ps []).
+Proof. exact semicolon_split. Qed.
+Print Assumptions C02_semicolon_split.
+
+(* Every layout of a file — any cuts (inside tokens and literals), indentation, blanks after '&',
+   trailing comments, blank and comment lines between continued lines and between statements —
+   yields exactly the ';'-separated, trimmed parts of the logical lines' character streams:
+   literal text verbatim, a continued literal re-joined exactly. *)
+Theorem C02_file_statements : forall f,
+  Forall item_ok f ->
+  read_all default_cfg (render_file f) = ROk (flat_map stmts_of (file_texts f)).
+Proof. exact file_statements. Qed.
+Print Assumptions C02_file_statements.
+
+Theorem C02_layout_invariance : forall f1 f2,
+  Forall item_ok f1 -> Forall item_ok f2 -> file_texts f1 = file_texts f2 ->
+  read_all default_cfg (render_file f1) = read_all default_cfg (render_file f2).
+Proof. exact layout_invariance. Qed.
+Print Assumptions C02_layout_invariance.
+
+(* The full statement (commentary wherever Fortran allows it) is FALSE of the code as it is:
+   it holds outside two decidable regions and is refuted inside each. *)
+Definition C02_statement : Prop := statement_C02.
+
+Theorem C02_partial : forall f,
+  Forall item_okF f -> Forall (fun it => item_region it = false) f ->
+  read_all default_cfg (render_file f) = ROk (flat_map stmts_of (file_texts f)).
+Proof. exact partial_C02. Qed.
+Print Assumptions C02_partial.
+
+Theorem C02_partial_refuted_comment_after_literal : ~ C02_statement.
+Proof. exact refuted_comment_after_literal. Qed.
+Print Assumptions C02_partial_refuted_comment_after_literal.
+
+Theorem C02_partial_refuted_comment_in_literal : ~ C02_statement.
+Proof. exact refuted_comment_in_literal. Qed.
+Print Assumptions C02_partial_refuted_comment_in_literal.
